@@ -126,7 +126,7 @@ class PipeOracle:
     """Value of every pipeline node computed from the *base* circuits only (reference
     interpreter + definition of each operator)."""
 
-    def __init__(self, pipe, base_specs, base_scs, vals, domains, max_grid=120000):
+    def __init__(self, pipe, base_specs, base_scs, vals, domains, max_grid=120000, max_rows=400000):
         self.pipe = pipe
         self.base_specs = base_specs
         self.base_scs = base_scs
@@ -134,6 +134,7 @@ class PipeOracle:
         self.domains = domains  # var -> ('d', n) | ('c',)
         self.scopes = node_scopes(pipe, base_specs)
         self.max_grid = max_grid
+        self.max_rows = max_rows  # bound on batch x grid rows of one reference evaluation (nested integrals multiply)
         self._gauss = None
         self._nfactors = self._count_factors()
 
@@ -246,6 +247,8 @@ class PipeOracle:
                 raise GridTooLarge()
             P, W = g
             B, G = X.shape[0], P.shape[0]
+            if B * G > self.max_rows:
+                raise GridTooLarge()
             Xg = np.repeat(X[:, None, :], G, axis=1)
             for c, v in enumerate(Z):
                 Xg[:, :, v] = P[None, :, c]
